@@ -27,7 +27,9 @@ SPEC = {
             "last, leading and own peers) interleaved with pin/unpin, snapshots, restarts; every joiner runs the real WaitForSync and "
             "is observed when it returns, some with their FSM held back (entries queued, not applied), some LAGGING: the joiner's Raft reads its RPCs through a gate that "
             "lets entries through up to a scripted log index (leader MaxAppendEntries = 1), so it has received nothing / one entry / half / all but its own add entry while WaitForSync runs "
-            "(every 8th script is this shape on a 2..3-member cluster, plus 15 % of the random joins); Peers() of every live member after quiescence. non-trivial = at least two membership calls "
+            "(every 8th script is this shape on a 2..3-member cluster, plus 15 % of the random joins); some with a STALE member: a follower stopped with its stores, the membership changed without it (a peer added / removed), the follower started again "
+            "behind the same gate (heartbeats reach it, entries do not: its own Peers() is the old peerset) and asked for the opposite change (RmPeer of the peer it does not list / AddPeer of the one it still lists), "
+            "then everybody catches up (every 8th script, alternating); Peers() of every live member after quiescence. non-trivial = at least two membership calls "
             "and one acknowledged write; distinct = distinct canonical JSON of the script. "
             "Cluster level (TestVerifC17Cluster, package ipfscluster): generated scripts of the REAL Cluster.PeerRemove / PeerAdd / watchPeers / Shutdown "
             "on 1..4 of 5 peers. Rig A: struct-literal Cluster peers, each running the real watchPeers goroutine, over a recording fake of the consensus "
